@@ -86,6 +86,8 @@ __CPROVER_ensures(self->pos_ == other->pos_ && self->allocatedSize_ == other->al
 __CPROVER_ensures(self->kLog2BuffSize == other->kLog2BuffSize && self->kBufferSize == other->kBufferSize && self->kMask == other->kMask)
 /* every live buffer of the source has been copied */
 __CPROVER_ensures(g_new_table_written >= other->buffersPos_)
+/* representation invariant of the copy: its pointer table really has buffersSize_ entries (allocateBuffer writes entry buffersPos_ < buffersSize_ without reallocating) */
+__CPROVER_ensures(g_new_table_len == self->buffersSize_)
 __CPROVER_assigns(*self, g_next_block_id, g_new_table_len, g_new_table_written, g_last_mo)
 #include "Arena_copy_ctor.body.inc"
 
